@@ -295,7 +295,8 @@ def parse_terse(out, harnesses, rc):
         if "VERIFICATION:- SUCCESSFUL" in b:
             r["status"] = "success"
         elif "VERIFICATION:- FAILED" in b:
-            r["status"] = "failed"
+            # a FAILED verdict without any check result is a harness timeout / CBMC crash, not a refutation
+            r["status"] = "failed" if (r["checks"] or r["failed_checks"]) else "tool_error"
         elif "CBMC failed" in b or "out of memory" in b.lower() or "timed out" in b.lower():
             r["status"] = "tool_error"
         else:
